@@ -1,6 +1,5 @@
 // C15/C16 spec functions (hand-written from the property statements)
 /// C15 request selection (genuine requests only: right kind, unspent outputs, canonical pool name, non-zero amounts)
-pub open spec fn pool_live(p: PoolState) -> bool { p.lefts > 0 && p.rights > 0 }
 pub open spec fn is_swap_req<C: ContentAddrStore>(s: UnsealedState<C>, tx: Transaction) -> bool {
     &&& tx.kind == TxKind::Swap && tx.outputs@.len() > 0 && s.coins@.coins.contains_key(cid(tx, 0))
     &&& spec_req_key(tx.data@) is Some && s.pools@.contains_key(spec_req_key(tx.data@)->Some_0) && pool_live(s.pools@[spec_req_key(tx.data@)->Some_0])
